@@ -408,3 +408,24 @@ def linear_atoms(node):
         return {norm_text(n): 1.0}, 0.0
     atoms, c = lin(node)
     return {k: v for k, v in atoms.items() if v != 0}, c
+
+
+def absent(it, *quals):
+    """Verdict for "the required construct was not found under the functions `quals`": False (a definite violation) only when
+    everything executed there was understood; None (undecided) when some call or attribute under them could not be resolved,
+    because the construct may hide in what was not understood."""
+    for what, fn, _line in it.notes:
+        if fn is None or not (what.startswith('call of unknown callee') or what.startswith('unknown attribute') or what.startswith('unmodelled')):
+            continue
+        if any(fn == q or fn.startswith(q + '.') for q in quals):
+            return None
+    # helpers evaluated while one of the functions was on the stack
+    under_ = set()
+    for e in it.events:
+        c = e['ctx']
+        if any(q in c for q in quals):
+            under_.update(c)
+    for what, fn, _line in it.notes:
+        if fn in under_ and (what.startswith('call of unknown callee') or what.startswith('unknown attribute') or what.startswith('unmodelled')):
+            return None
+    return False
